@@ -1,506 +1,4 @@
-// GENERATED by bin/lib/c_derive.py from the definitions TLC emitted (spec/MC_DeriveModel.tla). Do not edit.
+//! One quarter of the generated corpus of C17.  `generated.rs` (next to Cargo.toml, git-ignored) is
+//! rendered by bin/lib/c_derive.py on every check run from the definitions TLC emitted.
 #![allow(dead_code, unused_imports, non_camel_case_types)]
-use avro_verif_harness::c17::{Runner, run_type};
-
-pub mod s1046329bd1 {
-    use apache_avro::AvroSchema;
-    use serde::{Deserialize, Serialize};
-    use std::collections::HashMap;
-    #[derive(AvroSchema, Serialize, Deserialize)]
-    pub struct Rec {
-        #[serde(rename = "type")]
-        pub very_tasty: i32,
-        pub z42: i32,
-    }
-}
-
-pub mod s1124f684e9 {
-    use apache_avro::AvroSchema;
-    use serde::{Deserialize, Serialize};
-    use std::collections::HashMap;
-    #[derive(AvroSchema, Serialize, Deserialize)]
-    pub struct Rec {
-        pub a: [Option<i64>; 1],
-        pub my_field: i32,
-    }
-}
-
-pub mod s1877d3ce5d {
-    use apache_avro::AvroSchema;
-    use serde::{Deserialize, Serialize};
-    use std::collections::HashMap;
-    #[derive(AvroSchema, Serialize, Deserialize)]
-    pub struct Rec {
-        #[serde(skip_serializing, default)]
-        pub very_tasty: Option<i32>,
-        pub z42: i32,
-    }
-}
-
-pub mod s1d449f1855 {
-    use apache_avro::AvroSchema;
-    use serde::{Deserialize, Serialize};
-    use std::collections::HashMap;
-    #[derive(AvroSchema, Serialize, Deserialize)]
-    #[serde(rename_all_fields = "UPPERCASE")]
-    pub enum Shape {
-        One,
-        Two(i32),
-        MyItem(i32, String),
-        DarkBlue {
-            very_tasty: i64,
-            b: Option<String>,
-        },
-    }
-}
-
-pub mod s24e3a86d4d {
-    use apache_avro::AvroSchema;
-    use serde::{Deserialize, Serialize};
-    use std::collections::HashMap;
-    #[derive(AvroSchema, Serialize, Deserialize)]
-    pub struct Rec {
-        #[serde(skip_serializing_if = "Option::is_none", default)]
-        pub very_tasty: Option<Vec<i32>>,
-        pub z42: i32,
-    }
-}
-
-pub mod s29aca7a5f1 {
-    use apache_avro::AvroSchema;
-    use serde::{Deserialize, Serialize};
-    use std::collections::HashMap;
-    #[derive(AvroSchema, Serialize, Deserialize)]
-    #[serde(rename_all_fields = "PascalCase")]
-    pub enum Shape {
-        One,
-        Two(i32),
-        MyItem(i32, String),
-        DarkBlue {
-            very_tasty: i64,
-            b: Option<String>,
-        },
-    }
-}
-
-pub mod s2db642033d {
-    use apache_avro::AvroSchema;
-    use serde::{Deserialize, Serialize};
-    use std::collections::HashMap;
-    #[derive(AvroSchema, Serialize, Deserialize)]
-    pub struct A {
-        pub a: u64,
-        pub b: u64,
-        pub c: Option<u64>,
-    }
-}
-
-pub mod s34c4da709d {
-    use apache_avro::AvroSchema;
-    use serde::{Deserialize, Serialize};
-    use std::collections::HashMap;
-    #[derive(AvroSchema, Serialize, Deserialize)]
-    #[serde(rename_all = "camelCase")]
-    pub struct Outer {
-        #[serde(skip)]
-        pub very_tasty: i32,
-        pub my_field: Option<Color>,
-        #[serde(skip_serializing_if = "Option::is_none", default)]
-        pub kind: Option<Inner>,
-    }
-    #[derive(AvroSchema, Serialize, Deserialize)]
-    #[serde(rename_all = "SCREAMING_SNAKE_CASE")]
-    pub enum Color {
-        Red,
-        DarkBlue,
-        Z42,
-    }
-    #[derive(AvroSchema, Serialize, Deserialize)]
-    pub struct Inner {
-        pub x: i32,
-        pub kind: String,
-    }
-}
-
-pub mod s39f0056bb5 {
-    use apache_avro::AvroSchema;
-    use serde::{Deserialize, Serialize};
-    use std::collections::HashMap;
-    #[derive(AvroSchema, Serialize, Deserialize)]
-    #[serde(rename_all = "PascalCase")]
-    pub struct Rec {
-        #[serde(skip_serializing_if = "Option::is_none", default)]
-        pub very_tasty: Option<i32>,
-        pub z42: i32,
-    }
-}
-
-pub mod s530767af3d {
-    use apache_avro::AvroSchema;
-    use serde::{Deserialize, Serialize};
-    use std::collections::HashMap;
-    #[derive(AvroSchema, Serialize, Deserialize)]
-    #[serde(rename_all = "snake_case")]
-    pub struct Rec {
-        pub very_tasty: i32,
-        pub id: String,
-        pub z42: Option<i64>,
-    }
-}
-
-pub mod s64b0535325 {
-    use apache_avro::AvroSchema;
-    use serde::{Deserialize, Serialize};
-    use std::collections::HashMap;
-    #[derive(AvroSchema, Serialize, Deserialize)]
-    #[avro(alias = "OldRec")]
-    pub struct Rec {
-        pub very_tasty: i32,
-        pub id: String,
-        pub z42: Option<i64>,
-    }
-}
-
-pub mod s6aae044a3d {
-    use apache_avro::AvroSchema;
-    use serde::{Deserialize, Serialize};
-    use std::collections::HashMap;
-    #[derive(AvroSchema, Serialize, Deserialize)]
-    pub struct Rec {
-        #[serde(skip)]
-        pub very_tasty: Option<String>,
-        pub z42: i32,
-    }
-}
-
-pub mod s6edda22319 {
-    use apache_avro::AvroSchema;
-    use serde::{Deserialize, Serialize};
-    use std::collections::HashMap;
-    #[derive(AvroSchema, Serialize, Deserialize)]
-    pub struct Rec {
-        #[serde(skip_serializing, default)]
-        #[avro(default = "\"dflt\"")]
-        pub very_tasty: String,
-        pub z42: i32,
-    }
-}
-
-pub mod s6ffa842861 {
-    use apache_avro::AvroSchema;
-    use serde::{Deserialize, Serialize};
-    use std::collections::HashMap;
-    #[derive(AvroSchema, Serialize, Deserialize)]
-    pub struct A {
-        pub x: i32,
-        pub next: Option<Box<A>>,
-    }
-}
-
-pub mod s77f52b66f9 {
-    use apache_avro::AvroSchema;
-    use serde::{Deserialize, Serialize};
-    use std::collections::HashMap;
-    #[derive(AvroSchema, Serialize, Deserialize)]
-    pub struct Rec {
-        #[serde(skip_serializing_if = "Option::is_none", default)]
-        pub very_tasty: Option<i32>,
-        pub z42: i32,
-    }
-}
-
-pub mod s7ae1e9a0c1 {
-    use apache_avro::AvroSchema;
-    use serde::{Deserialize, Serialize};
-    use std::collections::HashMap;
-    #[derive(AvroSchema, Serialize, Deserialize)]
-    pub enum Shape {
-        One,
-        Two(i32),
-        MyItem(i32, String),
-        #[serde(skip)]
-        DarkBlue {
-            very_tasty: i64,
-            b: Option<String>,
-        },
-    }
-}
-
-pub mod s7c2574b145 {
-    use apache_avro::AvroSchema;
-    use serde::{Deserialize, Serialize};
-    use std::collections::HashMap;
-    #[derive(AvroSchema, Serialize, Deserialize)]
-    #[avro(repr = "bare_union")]
-    pub enum Bare {
-        One,
-        Two(i32),
-        Item(String),
-        DarkBlue {
-            very_tasty: i64,
-        },
-    }
-}
-
-pub mod s83fe5c3559 {
-    use apache_avro::AvroSchema;
-    use serde::{Deserialize, Serialize};
-    use std::collections::HashMap;
-    #[derive(AvroSchema, Serialize, Deserialize)]
-    pub struct Rec {
-        pub a: Vec<i32>,
-        pub my_field: i32,
-    }
-}
-
-pub mod s85dc3dd9c9 {
-    use apache_avro::AvroSchema;
-    use serde::{Deserialize, Serialize};
-    use std::collections::HashMap;
-    #[derive(AvroSchema, Serialize, Deserialize)]
-    pub struct Rec {
-        pub a: HashMap<String, u64>,
-        pub my_field: i32,
-    }
-}
-
-pub mod s92c8ea2fd5 {
-    use apache_avro::AvroSchema;
-    use serde::{Deserialize, Serialize};
-    use std::collections::HashMap;
-    #[derive(AvroSchema, Serialize, Deserialize)]
-    #[serde(rename_all = "PascalCase")]
-    pub struct Rec {
-        #[serde(skip)]
-        pub very_tasty: i32,
-        pub z42: i32,
-    }
-}
-
-pub mod s936fb56fb5 {
-    use apache_avro::AvroSchema;
-    use serde::{Deserialize, Serialize};
-    use std::collections::HashMap;
-    #[derive(AvroSchema, Serialize, Deserialize)]
-    pub enum Shape {
-        One,
-        Two(i32),
-        MyItem(i32, String),
-        #[serde(rename_all = "camelCase")]
-        DarkBlue {
-            very_tasty: i64,
-            b: Option<String>,
-        },
-    }
-}
-
-pub mod s93977081e1 {
-    use apache_avro::AvroSchema;
-    use serde::{Deserialize, Serialize};
-    use std::collections::HashMap;
-    #[derive(AvroSchema, Serialize, Deserialize)]
-    #[serde(rename_all = "SCREAMING_SNAKE_CASE")]
-    pub enum Shape {
-        One,
-        Two(i32),
-        MyItem(i32, String),
-        DarkBlue {
-            very_tasty: i64,
-            b: Option<String>,
-        },
-    }
-}
-
-pub mod sa0c0ae933d {
-    use apache_avro::AvroSchema;
-    use serde::{Deserialize, Serialize};
-    use std::collections::HashMap;
-    #[derive(AvroSchema, Serialize, Deserialize)]
-    #[serde(rename_all = "camelCase")]
-    pub struct Rec {
-        #[serde(skip_serializing_if = "Option::is_none", default)]
-        pub very_tasty: Option<i32>,
-        pub z42: i32,
-    }
-}
-
-pub mod sa17d9879f9 {
-    use apache_avro::AvroSchema;
-    use serde::{Deserialize, Serialize};
-    use std::collections::HashMap;
-    #[derive(AvroSchema, Serialize, Deserialize)]
-    pub struct A {
-        pub left: Color,
-        pub right: Color,
-    }
-    #[derive(AvroSchema, Serialize, Deserialize)]
-    pub enum Color {
-        Red,
-        DarkBlue,
-        Z42,
-    }
-}
-
-pub mod sb85ef24e19 {
-    use apache_avro::AvroSchema;
-    use serde::{Deserialize, Serialize};
-    use std::collections::HashMap;
-    #[derive(AvroSchema, Serialize, Deserialize)]
-    pub struct Rec {
-        pub a: HashMap<String, bool>,
-        pub my_field: i32,
-    }
-}
-
-pub mod sba2e10a3a5 {
-    use apache_avro::AvroSchema;
-    use serde::{Deserialize, Serialize};
-    use std::collections::HashMap;
-    #[derive(AvroSchema, Serialize, Deserialize)]
-    pub struct A {
-        pub left: Leaf,
-        pub right: Leaf,
-    }
-    #[derive(AvroSchema, Serialize, Deserialize)]
-    pub struct Leaf {
-        pub x: i32,
-    }
-}
-
-pub mod sbbca9ed05d {
-    use apache_avro::AvroSchema;
-    use serde::{Deserialize, Serialize};
-    use std::collections::HashMap;
-    #[derive(AvroSchema, Serialize, Deserialize)]
-    pub struct T1 {
-        pub x: i32,
-        pub left: T3,
-        pub right: T2,
-    }
-    #[derive(AvroSchema, Serialize, Deserialize)]
-    pub struct T2 {
-        pub y: i32,
-        pub one: T3,
-    }
-    #[derive(AvroSchema, Serialize, Deserialize)]
-    pub struct T3 {
-        pub z42: i32,
-        pub item: Option<Box<T1>>,
-    }
-}
-
-pub mod sbd4f8aee69 {
-    use apache_avro::AvroSchema;
-    use serde::{Deserialize, Serialize};
-    use std::collections::HashMap;
-    #[derive(AvroSchema, Serialize, Deserialize)]
-    pub struct T1 {
-        pub x: i32,
-        pub left: Option<Box<T3>>,
-        pub right: T2,
-    }
-    #[derive(AvroSchema, Serialize, Deserialize)]
-    pub struct T2 {
-        pub y: i32,
-        pub one: Option<Box<T3>>,
-    }
-    #[derive(AvroSchema, Serialize, Deserialize)]
-    pub struct T3 {
-        pub z42: i32,
-        pub item: T2,
-    }
-}
-
-pub mod sd59d9b1fed {
-    use apache_avro::AvroSchema;
-    use serde::{Deserialize, Serialize};
-    use std::collections::HashMap;
-    #[derive(AvroSchema, Serialize, Deserialize)]
-    pub struct Rec {
-        #[avro(doc = "A field.")]
-        pub very_tasty: i32,
-        pub z42: i32,
-    }
-}
-
-pub mod sdb40aeeb29 {
-    use apache_avro::AvroSchema;
-    use serde::{Deserialize, Serialize};
-    use std::collections::HashMap;
-    #[derive(AvroSchema, Serialize, Deserialize)]
-    pub struct Outer {
-        pub a: Wrap,
-        pub id: i32,
-    }
-    #[derive(AvroSchema, Serialize, Deserialize)]
-    pub struct Wrap(pub i64);
-}
-
-pub mod se7989fe05d {
-    use apache_avro::AvroSchema;
-    use serde::{Deserialize, Serialize};
-    use std::collections::HashMap;
-    #[derive(AvroSchema, Serialize, Deserialize)]
-    pub struct A {
-        pub left: [i32; 2],
-        pub right: [i32; 2],
-    }
-}
-
-pub mod sf05df0c27d {
-    use apache_avro::AvroSchema;
-    use serde::{Deserialize, Serialize};
-    use std::collections::HashMap;
-    #[derive(AvroSchema, Serialize, Deserialize)]
-    pub struct A {
-        pub a: apache_avro::Uuid,
-        pub b: apache_avro::Uuid,
-    }
-}
-
-pub mod sfe9f8624a1 {
-    use apache_avro::AvroSchema;
-    use serde::{Deserialize, Serialize};
-    use std::collections::HashMap;
-    #[derive(AvroSchema, Serialize, Deserialize)]
-    pub struct Rec {
-        pub a: u16,
-        pub my_field: i32,
-    }
-}
-
-pub static REGISTRY: &[(&str, Runner)] = &[
-    ("s1046329bd1", run_type::<s1046329bd1::Rec> as Runner),
-    ("s1124f684e9", run_type::<s1124f684e9::Rec> as Runner),
-    ("s1877d3ce5d", run_type::<s1877d3ce5d::Rec> as Runner),
-    ("s1d449f1855", run_type::<s1d449f1855::Shape> as Runner),
-    ("s24e3a86d4d", run_type::<s24e3a86d4d::Rec> as Runner),
-    ("s29aca7a5f1", run_type::<s29aca7a5f1::Shape> as Runner),
-    ("s2db642033d", run_type::<s2db642033d::A> as Runner),
-    ("s34c4da709d", run_type::<s34c4da709d::Outer> as Runner),
-    ("s39f0056bb5", run_type::<s39f0056bb5::Rec> as Runner),
-    ("s530767af3d", run_type::<s530767af3d::Rec> as Runner),
-    ("s64b0535325", run_type::<s64b0535325::Rec> as Runner),
-    ("s6aae044a3d", run_type::<s6aae044a3d::Rec> as Runner),
-    ("s6edda22319", run_type::<s6edda22319::Rec> as Runner),
-    ("s6ffa842861", run_type::<s6ffa842861::A> as Runner),
-    ("s77f52b66f9", run_type::<s77f52b66f9::Rec> as Runner),
-    ("s7ae1e9a0c1", run_type::<s7ae1e9a0c1::Shape> as Runner),
-    ("s7c2574b145", run_type::<s7c2574b145::Bare> as Runner),
-    ("s83fe5c3559", run_type::<s83fe5c3559::Rec> as Runner),
-    ("s85dc3dd9c9", run_type::<s85dc3dd9c9::Rec> as Runner),
-    ("s92c8ea2fd5", run_type::<s92c8ea2fd5::Rec> as Runner),
-    ("s936fb56fb5", run_type::<s936fb56fb5::Shape> as Runner),
-    ("s93977081e1", run_type::<s93977081e1::Shape> as Runner),
-    ("sa0c0ae933d", run_type::<sa0c0ae933d::Rec> as Runner),
-    ("sa17d9879f9", run_type::<sa17d9879f9::A> as Runner),
-    ("sb85ef24e19", run_type::<sb85ef24e19::Rec> as Runner),
-    ("sba2e10a3a5", run_type::<sba2e10a3a5::A> as Runner),
-    ("sbbca9ed05d", run_type::<sbbca9ed05d::T1> as Runner),
-    ("sbd4f8aee69", run_type::<sbd4f8aee69::T1> as Runner),
-    ("sd59d9b1fed", run_type::<sd59d9b1fed::Rec> as Runner),
-    ("sdb40aeeb29", run_type::<sdb40aeeb29::Outer> as Runner),
-    ("se7989fe05d", run_type::<se7989fe05d::A> as Runner),
-    ("sf05df0c27d", run_type::<sf05df0c27d::A> as Runner),
-    ("sfe9f8624a1", run_type::<sfe9f8624a1::Rec> as Runner),
-];
+include!(concat!(env!("CARGO_MANIFEST_DIR"), "/generated.rs"));
